@@ -5,7 +5,7 @@ From V.lib Require Import Base.
 From V.c07 Require Import C07Model.
 From V.c06 Require Import C06Model C06InitModel C06StructProofs C06CencProofs C06CbcsProofs C06SampleProofs C06InitProofs C06FragModel C06FragProofs.
 From V.c06 Require Import C06SencModel C06SencProofs C06SencAuxProofs C06TrexModel C06TrexProofs C06EntryModel C06EntryProofs.
-From V.c06 Require Import C06FileCbcsProofs C06TimingModel C06TimingProofs.
+From V.c06 Require Import C06FileCbcsProofs C06TimingModel C06TimingProofs C06SinfModel C06SinfProofs.
 
 (* cenc: crypting twice with the same key, IV and sub-sample map restores the sample — for EVERY block function
    E, every map (empty = whole sample, partial last block, clear runs > 65535, even overlapping or wrapping
@@ -398,6 +398,29 @@ Theorem C06_init_restore_all : forall m iv sch kid ps_ok psshs m' ts,
 Proof. exact init_restore_all. Qed.
 Print Assumptions C06_init_restore_all.
 
+(* ---------------------------------------------------------------- the sample entry and its sinf as bytes *)
+(* the sinf box InitProtect writes (frma = original sample entry type, schm = scheme + version 1.0, schi{tenc}) is read
+   back by DecodeSinf / DecodeFrma / DecodeSchm / DecodeSchi / DecodeTenc with exactly these values: every tenc that
+   fits its field widths (version 0 / 1, crypt:skip pattern, per-sample IV size, 16-byte KID, constant IV) *)
+Theorem C06_sinf_codec : forall fmt sch t,
+  fmt < 4294967296 -> sch < 4294967296 -> tenc_wf t = true ->
+  sinf_decode (sinf_encode fmt sch t) = Ok (mkSD (Some fmt) (Some sch) (Some (Some t))).
+Proof. exact sinf_codec. Qed.
+Print Assumptions C06_sinf_codec.
+
+(* "restores the original sample entry type", in bytes: the entry InitProtect + Encode write (size, encv / enca, the
+   fixed fields, the entry's own child boxes whatever they are - avcC / hvcC / esds, btrt, pasp, unknown boxes, sinf
+   boxes of its own -, then the new sinf) is turned by decode + RemoveEncryption + Encode into exactly the bytes of the
+   clear entry (size and 4cc included), and the sinf handed to DecryptFragment is the one InitProtect built *)
+Theorem C06_entry_bytes_roundtrip : forall enc_ty ty fixed children sch t,
+  ty < 4294967296 -> sch < 4294967296 -> tenc_wf t = true ->
+  forallb wf_box children = true ->
+  8 + lenN fixed + lenN (concat children) + 400 < 4294967296 ->
+  unprotect_entry_bytes (length fixed) (protect_entry_bytes enc_ty ty fixed children sch t)
+  = Ok (entry_bytes ty fixed children, mkSD (Some ty) (Some sch) (Some (Some t))).
+Proof. exact entry_bytes_roundtrip. Qed.
+Print Assumptions C06_entry_bytes_roundtrip.
+
 (* ---------------------------------------------------------------- examples *)
 (* the defect of the pinned tree (fixed by the `fix:` commit): traf{tfhd, tfxd-uuid} lost its uuid box and no
    byte was counted *)
@@ -543,3 +566,15 @@ Example ex_timing :
     [(mkTS 33554432 1024 17 0, 90000); (mkTS 16842752 1024 17 500, 91024); (mkTS 16842752 1024 17 4294966296, 92048)] /\
   fragment_meta tfhd None tr 90000 <> fragment_meta tfhd trex tr 90000.
 Proof. vm_compute. repeat split; try reflexivity. discriminate. Qed.
+
+(* the hypotheses of the byte-level entry theorem are satisfiable: an audio entry with an esds-like child and a sinf
+   of its own, protected with the cbcs tenc InitProtect builds *)
+Example ex_entry_bytes :
+  let own := mkbox cc_sinf (frma_encode 2054847098) in
+  let children := [mkbox 1702061171 [1; 2; 3]; own] in
+  let t := mkTenc 1 0 0 1 0 (2 ^ 127 + 5) (repeat 7 8 ++ repeat 0 8) in
+  tenc_wf t = true /\ forallb wf_box children = true /\
+  lenN (protect_entry_bytes cc_enca 1836069985 (repeat 0 28) children cc_cbcs t) = 8 + 28 + 11 + 20 + 97 /\
+  unprotect_entry_bytes 28 (protect_entry_bytes cc_enca 1836069985 (repeat 0 28) children cc_cbcs t)
+  = Ok (entry_bytes 1836069985 (repeat 0 28) children, mkSD (Some 1836069985) (Some cc_cbcs) (Some (Some t))).
+Proof. vm_compute. repeat split; reflexivity. Qed.
